@@ -7,7 +7,9 @@
    (NoMutationOfOperands) - the driver checks exactly that on the real objects by
    re-projecting every object created so far after every operation.
 
-   Phase value: [k |-> "phase", base, name, args, meas, ndiag, plugs, timeout]
+   Phase value: [k |-> "phase", base, name, args, meas, ndiag, plugs, timeout, ph]
+   (ph: base 2 declares a placeholder plug - "none" until with_plugs substitutes
+   a class for it; "na" for base 1)
    Collection value: [k |-> "seq"|"group", ch |-> sequence of phase values] *)
 EXTENDS Naturals, Sequences, FiniteSets, TLC
 
@@ -20,7 +22,7 @@ VARIABLES heap,    \* sequence of values
 vars == <<heap, frozen, runs, hist>>
 
 NewPhase(b) == [k |-> "phase", base |-> b, name |-> "", args |-> {}, meas |-> <<>>, ndiag |-> 0,
-                plugs |-> {}, timeout |-> 0]
+                plugs |-> {}, timeout |-> 0, ph |-> IF b = 2 THEN "none" ELSE "na"]
 Phases == {i \in 1..Len(heap) : heap[i].k = "phase"}
 Colls == {i \in 1..Len(heap) : heap[i].k # "phase"}
 MeasNames(v) == {v.meas[i] : i \in 1..Len(v.meas)}
@@ -42,6 +44,8 @@ Diagnose(o) == o \in Phases /\ heap[o].ndiag < 1 /\
    Create(<<"diagnose", o>>, [heap[o] EXCEPT !.ndiag = @ + 1])
 Plug(o, p) == o \in Phases /\ p \notin heap[o].plugs /\
    Create(<<"plug", o, p>>, [heap[o] EXCEPT !.plugs = @ \cup {p}])
+WithPlugs(o, c) == o \in Phases /\ heap[o].ph = "none" /\
+   Create(<<"with_plugs", o, c>>, [heap[o] EXCEPT !.ph = c])
 NestSeq(o1, o2) == o1 \in Phases /\ o2 \in Phases /\
    Create(<<"seq", o1, o2>>, [k |-> "seq", ch |-> <<heap[o1], heap[o2]>>])
 NestGroup(o1, o2) == o1 \in Phases /\ o2 \in Phases /\
@@ -50,7 +54,9 @@ CollWithArgs(c, a) == c \in Colls /\
    Create(<<"coll_with_args", c, a>>,
           [heap[c] EXCEPT !.ch = [i \in 1..Len(heap[c].ch) |-> [heap[c].ch[i] EXCEPT !.args = @ \cup {a}]]])
 \* executing a test built from one object creates nothing and changes nothing
-Execute(o) == /\ Len(hist) < MaxOps /\ o \in 1..Len(heap)
+Executable(v) == IF v.k = "phase" THEN v.ph # "none"
+                 ELSE \A i \in 1..Len(v.ch) : v.ch[i].ph # "none"
+Execute(o) == /\ Len(hist) < MaxOps /\ o \in 1..Len(heap) /\ Executable(heap[o])
               /\ runs' = runs + 1 /\ hist' = Append(hist, <<<<"execute", o>>, heap[o]>>)
               /\ UNCHANGED <<heap, frozen>>
 
@@ -61,6 +67,7 @@ Next == \/ \E b \in {1, 2} : Wrap(b)
              \/ \E m \in {"m1", "m2"} : Measures(o, m)
              \/ Diagnose(o)
              \/ \E p \in {"pa", "pb"} : Plug(o, p)
+             \/ \E c \in {"pha", "phb"} : WithPlugs(o, c)
              \/ Execute(o)
              \/ \E o2 \in 1..Len(heap) : NestSeq(o, o2) \/ NestGroup(o, o2)
 Spec == Init /\ [][Next]_vars
